@@ -217,4 +217,107 @@ def sortMessages (msgs prev : List Msg) : List Msg :=
   let order := firstFiles prev
   sortBy (fun m => ((fileOrder order m.file : Nat) : Int)) msgs
 
+/-! ## The semantic instance: snapshots, a per-target checker, recorded inputs, `update`
+
+A *unit* is a target that is processed as a whole (module top level, function, method).  Symbol snapshots
+live in an environment `Env`; every name is owned by at most one unit, the one whose (re)analysis defines it.
+The type checker is a parameter: `checkT u env` returns the errors of unit `u`, the names it read and the
+snapshots it gives to the names it owns; `analyze us env` is what semantic analysis + inference of a batch
+make of the environment.  `depGen` is mypy/server/deps.py, `snapDiff` is mypy/server/astdiff.py
+(`compare_symbol_table_snapshots` turned into triggers).  Their assumed properties (`WorldOK`) are stated in
+Proofs/FineGrainedSem.lean. -/
+
+abbrev Snap := Nat
+abbrev Env := Name → Snap
+
+structure Out where
+  errs : List Msg
+  reads : List Name
+  defs : Name → Snap
+
+/-- one version of the program, with the checker -/
+structure World where
+  units    : List Target
+  modOf    : Target → Mod
+  line     : Target → Int
+  owner    : Name → Option Target
+  nameMod  : Name → Mod
+  checkT   : Target → Env → Out
+  analyze  : List Target → Env → Env
+  depGen   : Target → Env → Deps
+  snapDiff : Env → Env → List Name
+
+structure SemSt where
+  env  : Env
+  /-- `manager.errors.error_info_map`, by target -/
+  emap : Target → List Msg
+  deps : Deps
+  /-- ghost: the inputs (name, snapshot) recorded when the unit was last processed -/
+  seen : Target → List (Name × Snap)
+  /-- ghost: the errors the unit had when it was last processed (survives `errors.reset()`) -/
+  gerr : Target → List Msg
+
+/-- type checking one unit of a batch against the analysed environment: errors replace the unit's old ones
+    (`clear_errors_in_targets`), its dependencies are merged (`update_deps`) -/
+def recordUnit (W : World) (env : Env) (s : SemSt) (u : Target) : SemSt :=
+  { s with emap := fun v => if v = u then (W.checkT u env).errs else s.emap v,
+           gerr := fun v => if v = u then (W.checkT u env).errs else s.gerr v,
+           seen := fun v => if v = u then (W.checkT u env).reads.map (fun n => (n, env n)) else s.seen v,
+           deps := s.deps ++ W.depGen u env }
+
+/-- `reprocess_nodes` / the checking part of `update_module_isolated`: analyse the batch, check every unit of
+    it, fire the triggers of the snapshots that changed -/
+def processBatch (W : World) (s : SemSt) (us : List Target) : SemSt × List Name :=
+  let us := us.filter (fun u => u ∈ W.units)
+  let env' := W.analyze us s.env
+  (us.foldl (recordUnit W env') { s with env := env' }, W.snapDiff s.env env')
+
+def semSys (W : World) : Sys SemSt where
+  deps s := s.deps
+  modOf _ t := if t ∈ W.units then some (W.modOf t) else none
+  loaded _ _ := true
+  lookup _ t := if t ∈ W.units then [t] else []
+  isProto _ _ := false
+  line _ u := W.line u
+  invalidate s _ := s
+  reprocess s _ us := processBatch W s us
+
+structure UpdSt where
+  st : SemSt
+  /-- `previous_targets_with_errors` -/
+  prevErr : List Target
+
+/-- `manager.errors.targets()` -/
+def errTargets (W : World) (s : SemSt) : List Target := W.units.filter (fun u => !(s.emap u).isEmpty)
+
+/-- `update_module`: `errors.reset()`, re-analyse and check the whole module (names the new version no longer
+    defines disappear; a deleted module has no units left), `calculate_active_triggers(old, new)` -/
+def processModule (W : World) (s : SemSt) (m : Mod) : SemSt × List Name :=
+  let us := W.units.filter (fun u => W.modOf u = m)
+  let envC : Env := fun n => if W.nameMod n = m ∧ W.owner n = none then 0 else s.env n
+  let r := processBatch W { s with env := envC, emap := fun _ => [] } us
+  (r.1, W.snapDiff s.env r.1.env)
+
+/-- the `while True: update_one(...)` loop over the changed modules; `none` = MAX_ITER was hit -/
+def updateLoop (W : World) : List Mod → UpdSt → Option Mod → Option (UpdSt × Option Mod)
+  | [], u, last => some (u, last)
+  | m :: rest, u, _ =>
+    match propagate (semSys W) MAX_ITER (processModule W u.st m).1 (processModule W u.st m).2 [m] [] [] with
+    | .maxIter _ => none
+    | .done s _ => updateLoop W rest { st := s, prevErr := u.prevErr ++ errTargets W s } (some m)
+
+/-- `FineGrainedBuildManager.update(changed_modules, removed_modules)` (no blocking errors, nothing to load
+    from a cache): `none` = the `RuntimeError` of MAX_ITER -/
+def update (W : World) (u : UpdSt) (changed : List Mod) : Option UpdSt :=
+  if changed.isEmpty then some u
+  else match updateLoop W changed u none with
+    | none => none
+    | some (u1, last) =>
+      match propagate (semSys W) MAX_ITER u1.st [] last.toList u1.prevErr [] with
+      | .maxIter _ => none
+      | .done s _ => some { st := s, prevErr := errTargets W s }
+
+/-- `manager.errors.new_messages()`: the messages of all targets, target by target -/
+def newMessages (W : World) (s : SemSt) : List Msg := W.units.flatMap s.emap
+
 end FineGrained
